@@ -897,6 +897,10 @@ int define_new_function (char *name, int num_arg, int num_local, uint64_t flags,
   ident_hash_elem_t *ihe;
   compiler_function_t *funp = 0;
 
+  /* arguments beyond the limit were refused by add_local_name() and have no type entry */
+  if (num_arg > max_num_locals)
+    num_arg = max_num_locals;
+
   runtime_num = (ihe = lookup_ident (name)) ? ihe->dn.function_num : -1;
   if (runtime_num >= 0)
     {
